@@ -95,7 +95,9 @@ def run(tier, seed, result):
                                 ok = one_call(cname, h, ns, regns, target,
                                               calls, results, required,
                                               subset, hparams, falsy, style,
-                                              is_async, loop, result, total)
+                                              is_async, loop, result, total,
+                                              [n for n in tsig.parameters
+                                               if n != 'self'])
                                 if ok is None:
                                     continue
                                 total += 1
@@ -125,7 +127,7 @@ def run(tier, seed, result):
 
 
 def one_call(cname, h, ns, regns, target, calls, results, required, subset,
-             hparams, falsy, style, is_async, loop, result, k):
+             hparams, falsy, style, is_async, loop, result, k, torder):
     supplied = {}
     for p in required:
         supplied[p.name] = Sentinel('req-' + p.name)
@@ -137,12 +139,16 @@ def one_call(cname, h, ns, regns, target, calls, results, required, subset,
         else:
             supplied[p.name] = Sentinel('opt-' + p.name)
     if style == 'pos':
-        # positional only makes sense for a prefix of the helper's own
-        # parameter order
-        names = [p.name for p in hparams]
+        # a caller passing arguments positionally relies on the order of
+        # the underlying method: the i-th value must reach the parameter
+        # that is i-th there.  Only prefixes of that order can be given
+        # positionally; a helper parameter the target lacks (vestigial)
+        # ends the comparable prefix.
+        hnames = [p.name for p in hparams]
         prefix = []
-        for n in names:
-            if n in supplied:
+        for i, n in enumerate(torder):
+            if n in supplied and i < len(hnames) and \
+                    hnames[i] in torder:
                 prefix.append(n)
             else:
                 break
